@@ -431,6 +431,12 @@ macro_rules! mirror_pass {
                     let rk = rank0 | (f as u64) << 8 | i as u64;
                     let case = || json!({"pass": "mirror", "governed_component": $label, "frame_deltas_s": sched, "chain_map": map.iter().map(|(a, b)| format!("{a:?}->{b:?}")).collect::<Vec<_>>(), "other_animator_reset_before_every_frame": variants[ent.1].1,
                         "keys": {"A": "0.5 s", "B": "0.5 s after 0.25 s", "C": "0.25 s"}, "other_animator": "20 s after 0.25 s"});
+                    // the selector of EITHER component type acts on its key: key A has a timeline, so after the first
+                    // frame the governed animator has been started (both component types are registered with the
+                    // same key type in this App)
+                    if f == 0 && nstate == AnimationState::None {
+                        acc.sink.add("S2:selector-did-not-start-the-animator", rk, || (format!("mirror pass ({} governed, both component types registered with one key type), frame 0: the selector's key {okey:?} has a timeline but the governed animator is still in state None", $label), case()));
+                    }
                     if nkey != okey {
                         acc.chain_fires += 1;
                         if Some(nkey) != expected {
